@@ -1,7 +1,7 @@
 (* C02 — property theorems (statements only; proofs live in Proofs*.v). *)
 From Coq Require Import ZArith QArith Qcanon List Bool Permutation.
 Require Import QV.C02.Spec QV.C02.Model QV.C02.Proofs QV.C02.Proofs2 QV.C02.Proofs3.
-Require Import QV.C02.Stack QV.C02.ProofsStack QV.C02.Merge QV.C02.ProofsMerge QV.C02.Rewrite QV.C02.ProofsRw.
+Require Import QV.C02.Stack QV.C02.ProofsStack QV.C02.Merge QV.C02.ProofsMerge QV.C02.Rewrite QV.C02.ProofsRw QV.C02.ProofsAccept.
 Import ListNotations.
 Open Scope Qc_scope.
 
@@ -180,6 +180,52 @@ Example C02_outside_is_accepted :
   | _ => false
   end = true.
 Proof. vm_compute. reflexivity. Qed.
+
+(* ---- round 2: which assignments are refused, and how ------------------------------------------------------------------ *)
+(* an assignment with nothing to object to (no violated constraint, integer counts / range bounds, step <> 0, no
+   negative begin / length, equal durations inside atomic composites) passes every check: never Rejected *)
+Theorem C02_accepts : forall p en mm,
+  must_accept p en = true -> check p en mm = None /\ forall k, create_program p en mm <> Rejected k.
+Proof. intros p en mm H. split; [now apply must_accept_checks | now apply must_accept_not_rejected]. Qed.
+Print Assumptions C02_accepts.
+
+Theorem C02_must_accept_iff_no_violation : forall p en, must_accept p en = true <-> viol p en = [].
+Proof. exact must_accept_viol. Qed.
+Print Assumptions C02_must_accept_iff_no_violation.
+
+(* every refusal is legitimate and of the right kind: the kind reported is the class of a condition that really is
+   violated somewhere in the tree (constraint / non-integer count / ValueError conditions / atomic duration mismatch);
+   "window outside [0, duration of its node]" is not among the kinds - the code never checks it (C02_outside_is_accepted) *)
+Theorem C02_refusal_is_legitimate : forall p en mm k,
+  create_program p en mm = Rejected k -> In (kclass k) (viol p en).
+Proof.
+  intros p en mm k H. unfold create_program in H. destruct (check p en mm) as [k'|] eqn:E.
+  - injection H as <-. now apply (check_viol p en mm).
+  - destruct (to_program _); discriminate.
+Qed.
+Print Assumptions C02_refusal_is_legitimate.
+
+(* ---- round 2: volatile repetition counts ------------------------------------------------------------------------------- *)
+(* "after the counts are updated the windows are the declared ones under the new counts" is FALSE of the faithful
+   model (Model.buildv: the tree built under en with the counts of en2) and of the code (known finding
+   volatile-update-stale-offsets): the window of the atom behind the repetition stays at 4 instead of moving to 6 *)
+Theorem C02_volatile_update_refuted :
+  exists p en en2 mm l,
+    (forall x, x <> 5%N -> en x = en2 x) /\ updated_program p en en2 mm = Some l /\
+    ~ Permutation (loop_windows l) (denote p en2 mm).
+Proof.
+  exists (Seq [] [Rep [] (EV 5%N) (Atom false (EC (Q2Qc 2)) [(0%N, EC (Q2Qc 0), EC (Q2Qc 1))]);
+                  Atom false (EC (Q2Qc 1)) [(1%N, EC (Q2Qc 0), EC (Q2Qc 1))]]).
+  exists (fun _ => Q2Qc 2), (fun x => if N.eqb x 5 then Q2Qc 3 else Q2Qc 2), Some.
+  eexists. split; [|split].
+  - intros x Hx. destruct (N.eqb_spec x 5); [contradiction | reflexivity].
+  - vm_compute. reflexivity.
+  - intro H. apply Permutation_sym in H.
+    apply (Permutation_in (1%N, Q2Qc 6, Q2Qc 1)) in H.
+    + vm_compute in H. repeat (destruct H as [H|H]; [inversion H|]). exact H.
+    + vm_compute. do 3 right. left. reflexivity.
+Qed.
+Print Assumptions C02_volatile_update_refuted.
 
 (* non-vacuity: a reversed repetition inside a sequence with renaming satisfies the hypotheses of C02_windows and
    C02_inside (a program is produced, all declarations inside their nodes) and reports 4 windows *)
